@@ -57,6 +57,42 @@ fn field_section<F: FieldLike>(ctx: &Ctx, out: &mut String, rng: &mut rand_chach
     // shared arithmetic forms: the first 27 binary forms (operators + inherent) and the first 7 unary
     let nb = 27.min(bins.len());
     let nu = 7.min(uns.len());
+    // structured pairs: all ordered pairs of the core zoo, and pairs whose *internal* (Montgomery)
+    // representations differ in exactly one 32-bit limb (a, a + d*2^(32 i)/R), through rotating forms
+    {
+        let core = crate::zoo::field_core(f);
+        let n32 = (f.bits + 31) / 32;
+        let rinv = f.inv(&((b(1) << (32 * n32)) % &f.p)).unwrap();
+        let mut pairs: Vec<(B, B)> = Vec::new();
+        for (x, _) in &core {
+            for (y, _) in &core {
+                pairs.push((x.clone(), y.clone()));
+            }
+        }
+        let mut pr = rng_for(ctx.seed, "C12-limb-neighbours", 0, n as u64);
+        for i in 0..n32 {
+            for d in [1u64, 1 << 31, 0xffff_ffff, 0x1_0000_0001] {
+                let a = rand_below(&mut pr, &f.p);
+                let delta = f.mul(&(b(d) << (32 * i)), &rinv);
+                let a2 = f.add(&a, &delta);
+                pairs.push((a.clone(), a2.clone()));
+                pairs.push((a2, a.clone()));
+                pairs.push((b(0), delta.clone()));
+                pairs.push((delta.clone(), f.neg(&delta)));
+            }
+        }
+        for (pi, (a, bb)) in pairs.iter().enumerate() {
+            if pi % nshards != shard {
+                continue;
+            }
+            let (la, lb) = (F::from_b(a), F::from_b(bb));
+            for k in 0..3 {
+                let form = &bins[(pi / nshards + 9 * k) % nb];
+                let r = g(|| hx(&to_le(&(form.f)(la, lb).to_b(), n)));
+                let _ = writeln!(out, "{name} {} a={} b={} -> {:?}", form.name, hexs(a), hexs(bb), r);
+            }
+        }
+    }
     let reps = scale;
     for rep in 0..reps {
         let a = if rep % 3 == 0 { zoo[rand_range(rng, zoo.len())].0.clone() } else { rand_below(rng, &f.p) };
@@ -159,6 +195,36 @@ fn group_section(ctx: &Ctx, out: &mut String, rng: &mut rand_chacha::ChaCha20Rng
             format!("{w} y^2={}", hexs(&fqb(&(y * y))))
         });
         let _ = writeln!(out, "sqrt_ratio {} {} -> {:?}", hexs(&r0), hexs(&r1), r);
+    }
+    // engineered inputs: ratios whose 2-primary component is chosen (every table window of the
+    // table-driven square root, early exits of Tonelli-Shanks) handed to sqrt_ratio directly and, through
+    // solved Elligator inputs, to encode_to_curve. Generated model-side from per-target PRNG streams, so
+    // both builds see the same values whichever shard they land in.
+    {
+        let sy = crate::c09::sylow(ctx);
+        let targets = crate::c09::structured_exponents(8);
+        for (ti, e) in targets.iter().enumerate() {
+            if ti % nshards != shard {
+                continue;
+            }
+            let mut er = rng_for(ctx.seed, "C12-engineered", 0, ti as u64);
+            let ratio = crate::c09::element_with_exponent(ctx, &sy, e, &mut er);
+            let den = { let d = rand_below(&mut er, &f.p); if d == b(0) { b(1) } else { d } };
+            let num = f.mul(&ratio, &den);
+            for (nu, de) in [(num.clone(), den.clone()), (b(1), f.inv(&ratio).unwrap_or(b(1)))] {
+                let (l0, l1) = (fq(&nu), fq(&de));
+                let r = g(|| {
+                    let (w, y) = sqrt_ratio(&l0, &l1);
+                    format!("{w} y^2={}", hexs(&fqb(&(y * y))))
+                });
+                let _ = writeln!(out, "sqrt_ratio(engineered e={}) {} {} -> {:?}", hexs(e), hexs(&nu), hexs(&de), r);
+            }
+            for r0 in crate::eng::elligator_r0_for_exponent(ctx, &sy, e, &mut er).into_iter().take(2) {
+                let l0 = fq(&r0);
+                let r = g(|| el_line(&El::encode_to_curve(&l0)));
+                let _ = writeln!(out, "encode_to_curve(engineered e={}) {} -> {:?}", hexs(e), hexs(&r0), r);
+            }
+        }
     }
     // group programs over the shared forms
     let bins = bin_forms();
